@@ -14,7 +14,7 @@ from vlib import harness
 
 ID = "C15"
 LEVEL = "exploration"
-RULE = ("a case is one subprocess with an affinity mask in {1,2,5,16 CPUs} x LOKY_MAX_CPU_COUNT in {unset,0,1,3,64} x backend in "
+RULE = ("a case is one subprocess with an affinity mask in {1,2,5,16 CPUs} (in one case out of eight observed from a non-main thread that narrowed its own mask to 1-3 CPUs) x LOKY_MAX_CPU_COUNT in {unset,0,1,3,64} x backend in "
         "{loky, threading, multiprocessing, default}: cpu_count() and effective_n_jobs(n) for every n in [-2*cpus, 2*cpus] are "
         "compared with an independent re-derivation, Parallel(n_jobs=0) must raise ValueError, several n_jobs values are run "
         "for real (3*resolved+2 tasks of 20-60 ms) and nesting shapes of depth 3 are executed; distinct_nontrivial counts "
@@ -26,8 +26,8 @@ ASSUMPTIONS = [
     "fan-out is limited so that the machine is not saturated",
 ]
 SHARDS = {"quick": 5, "thorough": 6}
-FLOORS = {"quick": {"arith_observations": 400, "real_runs": 120, "runs_with_overlap": 50, "nested_runs": 12},
-          "thorough": {"arith_observations": 4000, "real_runs": 800, "runs_with_overlap": 400, "nested_runs": 100}}
+FLOORS = {"quick": {"cases_observed_from_a_thread_with_its_own_affinity_mask": 3, "arith_observations": 400, "real_runs": 120, "runs_with_overlap": 50, "nested_runs": 12},
+          "thorough": {"cases_observed_from_a_thread_with_its_own_affinity_mask": 30, "arith_observations": 4000, "real_runs": 800, "runs_with_overlap": 400, "nested_runs": 100}}
 CHILD = os.path.join(harness.VERIF, "checks", "c15_child.py")
 
 
@@ -41,14 +41,17 @@ def cases(tier, seed):
     n = 40 if tier == "quick" else len(combos) * 4
     for i in range(n):
         m, e, b = combos[i % len(combos)]
-        cpus = max(1, min(m, 16, e if e is not None else 16))
+        tm = None
+        if i % 4 == 1 and m >= 5:
+            tm = [1, 2, 3][(i // 4) % 3]      # everything is observed from a non-main thread that narrowed its own mask
+        cpus = max(1, min(tm or m, 16, e if e is not None else 16))
         rng2 = harness.rng_for(seed, ID, "case", i)
         rng_run = sorted({1, -1, 3, rng2.choice([2, 4, cpus, cpus + 1, 2 * cpus]), rng2.choice([-2, -cpus, -cpus - 1, -2 * cpus])} - {0})
         rng_run = [x for x in rng_run if abs(x) <= 10]
         nest = None
         if i % 2 == 0:
             nest = dict(depth=3, outer_n=rng2.choice([2, 3]), inner_n=2)
-        yield dict(i=i, mask=m, loky_max=e, backend=b, n_jobs_arith=list(range(-2 * cpus - 1, 2 * cpus + 2)),
+        yield dict(i=i, mask=m, thread_mask=tm, loky_max=e, backend=b, n_jobs_arith=list(range(-2 * cpus - 1, 2 * cpus + 2)),
                    n_jobs_run=rng_run, nest=nest)
 
 
@@ -73,7 +76,9 @@ def run_case(case, ctx):
             json.dump(dict(case, dir=d), f)
         r = harness.run_py([CHILD, cf, of], timeout=240, result_file=of)
         ctx.evaluated()
-        desc = {k: case[k] for k in ("mask", "loky_max", "backend")}
+        desc = {k: case[k] for k in ("mask", "thread_mask", "loky_max", "backend")}
+        if case.get("thread_mask"):
+            ctx.count("cases_observed_from_a_thread_with_its_own_affinity_mask")
         if r["result"] is None:
             ctx.inconclusive("child-failed", dict(desc, rc=r["rc"], err=r["err"][-700:]))
             return
